@@ -1,11 +1,19 @@
 /-
-C12 — formula theorems over the definitions regenerated from src/hd/ref/hdx/theta_structure.h / theta_isogenies.c
-(tie T: `SqiGen.Theta`).  Any field.
-  * `hadamard_involutive`     H(H(P)) = 4·P  (the Hadamard transform is an involution up to the projective factor 4)
-  * `to_squared_theta_eq`     to_squared_theta = H ∘ (coordinatewise square)
-  * `hadamard_linear`         H(P + Q) = H(P) + H(Q) coordinatewise (the transform is linear)
-That the theta formulas built from these compute the (2,2)-isogeny with the given kernel is not formalised
-(partial, see notes/C12.md).
+C12 — formula theorems over the definitions regenerated from src/hd/ref/hdx/theta_structure.{h,c} and
+theta_isogenies.c (tie T: `SqiGen.Theta`).  Any field.  (DESIGN §4 C12 (i).)
+  * `hadamard_involutive`, `hadamard_linear`, `to_squared_theta_eq`
+  * `theta_isogeny_eval_half` / `_generic`: the evaluation of a step is P ↦ H(P²) ⊙ c (followed by H when bool2)
+  * `double_point_eq_dual_comp`: **doubling = isogeny composed with its dual at formula level**: with (A,B,C,D) a dual
+    null point (A² etc. = the coordinates of `to_squared_theta null`), `double_point` is the half-step with constants
+    (BCD,ACD,ABD,ABC) ∝ (1/A,…) — the isogeny f — followed by the half-step with constants (bcd,acd,abd,abc) ∝ (1/a,…)
+    — its dual — i.e. [2] = f̂ ∘ f
+  * `apply_isomorphism_linear`, `apply_isomorphism_smul`: the splitting isomorphism is a linear map
+  * `base_change_matrix`: `base_change` is the 4×4 matrix action on (x₁x₂, x₁z₂, z₁x₂, z₁z₂)
+  * `product_structure_curves`, `product_point_to_montgomery`: `theta_product_structure_to_elliptic_product` and
+    `theta_point_to_montgomery_point` invert the product-theta construction
+    (null point (a₁a₂, b₁a₂, a₁b₂, b₁b₂), point (p₁p₂, q₁p₂, p₁q₂, q₁q₂)).
+That the theta formulas built from these compute the (2,2)-isogeny with the given kernel (Kani / theta theory) is not
+formalised (partial, see notes/C12.md).
 -/
 import SqiGen.Theta
 import Mathlib.Tactic.Ring
@@ -31,5 +39,89 @@ theorem hadamard_linear (P Q : ThetaPoint F) :
     (hadamard { x := P.x + Q.x, y := P.y + Q.y, z := P.z + Q.z, t := P.t + Q.t }).z = (hadamard P).z + (hadamard Q).z ∧
     (hadamard { x := P.x + Q.x, y := P.y + Q.y, z := P.z + Q.z, t := P.t + Q.t }).t = (hadamard P).t + (hadamard Q).t := by
   simp only [hadamard]; refine ⟨by ring, by ring, by ring, by ring⟩
+
+/-- coordinatewise product -/
+def had (P c : ThetaPoint F) : ThetaPoint F := { x := P.x * c.x, y := P.y * c.y, z := P.z * c.z, t := P.t * c.t }
+/-- the half-step P ↦ H(P²) ⊙ c -/
+def halfStep (c P : ThetaPoint F) : ThetaPoint F := had (to_squared_theta P) c
+
+/-- evaluation of a step without Hadamard transforms (bool1 = bool2 = 0): P ↦ H(P²) ⊙ precomputation -/
+theorem theta_isogeny_eval_half (phi : ThetaIsogeny F) (P : ThetaPoint F) (h1 : phi.bool1 = 0) (h2 : phi.bool2 = 0) :
+    theta_isogeny_eval phi P = halfStep phi.precomputation P := by
+  simp [theta_isogeny_eval, halfStep, had, h1, h2]
+
+/-- evaluation of a generic step (bool1 = 0, bool2 = 1): P ↦ H(H(P²) ⊙ precomputation) -/
+theorem theta_isogeny_eval_generic (phi : ThetaIsogeny F) (P : ThetaPoint F) (h1 : phi.bool1 = 0) (h2 : phi.bool2 = 1) :
+    theta_isogeny_eval phi P = hadamard (halfStep phi.precomputation P) := by
+  simp [theta_isogeny_eval, halfStep, had, h1, h2]
+
+/-- **[2] = f̂ ∘ f at formula level.** Let (X,Y,Z,T) = `to_squared_theta null` and (A,B,C,D) with A² = X, … (a dual
+    theta null point). On a structure with its precomputation done, `double_point` is the half-step with constants
+    (BCD, ACD, ABD, ABC) (the isogeny, in dual coordinates) followed by the half-step with constants
+    (bcd, acd, abd, abc) (its dual). -/
+theorem double_point_eq_dual_comp (S : ThetaStructure F) (P : ThetaPoint F) (A B C D : F)
+    (hA : A * A = (to_squared_theta S.null_point).x) (hB : B * B = (to_squared_theta S.null_point).y)
+    (hC : C * C = (to_squared_theta S.null_point).z) (hD : D * D = (to_squared_theta S.null_point).t) :
+    (double_point (theta_precomputation { S with precomputation := 0 }) P).1 =
+      halfStep { x := S.null_point.y * S.null_point.z * S.null_point.t, y := S.null_point.x * S.null_point.z * S.null_point.t,
+                 z := S.null_point.x * S.null_point.y * S.null_point.t, t := S.null_point.x * S.null_point.y * S.null_point.z }
+        (halfStep { x := B * C * D, y := A * C * D, z := A * B * D, t := A * B * C } P) := by
+  simp only [double_point, theta_precomputation, halfStep, had]
+  simp only [ne_eq, not_true_eq_false, decide_false, Bool.not_false, if_true, one_ne_zero, not_false_eq_true, decide_true,
+    Bool.not_true, Bool.false_eq_true, if_false]
+  rw [← hA, ← hB, ← hC, ← hD]
+  simp only [to_squared_theta, hadamard]
+  congr 1 <;> ring
+
+/-- the splitting isomorphism is linear -/
+theorem apply_isomorphism_linear (M : ThetaSplitting F) (P Q : ThetaPoint F) :
+    apply_isomorphism M { x := P.x + Q.x, y := P.y + Q.y, z := P.z + Q.z, t := P.t + Q.t } =
+      { x := (apply_isomorphism M P).x + (apply_isomorphism M Q).x, y := (apply_isomorphism M P).y + (apply_isomorphism M Q).y,
+        z := (apply_isomorphism M P).z + (apply_isomorphism M Q).z, t := (apply_isomorphism M P).t + (apply_isomorphism M Q).t } := by
+  simp only [apply_isomorphism]; congr 1 <;> ring
+
+theorem apply_isomorphism_smul (M : ThetaSplitting F) (P : ThetaPoint F) (c : F) :
+    apply_isomorphism M { x := c * P.x, y := c * P.y, z := c * P.z, t := c * P.t } =
+      { x := c * (apply_isomorphism M P).x, y := c * (apply_isomorphism M P).y,
+        z := c * (apply_isomorphism M P).z, t := c * (apply_isomorphism M P).t } := by
+  simp only [apply_isomorphism]; congr 1 <;> ring
+
+/-- `base_change` is the 4×4 matrix (M_ij) applied to (x₁x₂, x₁z₂, z₁x₂, z₁z₂) (neither point is (0:0)) -/
+theorem base_change_matrix (phi : ThetaGluing F) (T : ThetaCouplePoint F)
+    (h1 : ¬ (T.P1.z = 0 ∧ T.P1.x = 0)) (h2 : ¬ (T.P2.z = 0 ∧ T.P2.x = 0)) :
+    let a := T.P1.x * T.P2.x; let b := T.P1.x * T.P2.z; let c := T.P2.x * T.P1.z; let d := T.P1.z * T.P2.z
+    base_change phi T =
+      { x := a * phi.M00 + b * phi.M01 + c * phi.M02 + d * phi.M03,
+        y := a * phi.M10 + b * phi.M11 + c * phi.M12 + d * phi.M13,
+        z := a * phi.M20 + b * phi.M21 + c * phi.M22 + d * phi.M23,
+        t := a * phi.M30 + b * phi.M31 + c * phi.M32 + d * phi.M33 } := by
+  have c1 : (decide (T.P1.z = 0) && decide (T.P1.x = 0)) = false := by
+    simp only [Bool.and_eq_false_imp, decide_eq_true_eq, decide_eq_false_iff_not]; intro hz hx; exact h1 ⟨hz, hx⟩
+  have c4 : (decide (T.P2.z = 0) && decide (T.P2.x = 0)) = false := by
+    simp only [Bool.and_eq_false_imp, decide_eq_true_eq, decide_eq_false_iff_not]; intro hz hx; exact h2 ⟨hz, hx⟩
+  simp only [base_change, c1, c4, Bool.false_eq_true, if_false]
+
+/-- Montgomery curve (A : C) attached to a dimension-1 theta null point (a : b): A = −2(a⁴+b⁴), C = a⁴ − b⁴ -/
+def montA (a b : F) : F := -(2 * (a ^ 4 + b ^ 4))
+def montC (a b : F) : F := a ^ 4 - b ^ 4
+
+/-- `theta_product_structure_to_elliptic_product` inverts the product-theta construction: on the product null point
+    (a₁a₂, b₁a₂, a₁b₂, b₁b₂) it returns the curves of (a₁ : b₁) and (a₂ : b₂) -/
+theorem product_structure_curves (S : ThetaStructure F) (a1 b1 a2 b2 : F)
+    (hn : S.null_point = { x := a1 * a2, y := b1 * a2, z := a1 * b2, t := b1 * b2 }) :
+    (theta_product_structure_to_elliptic_product S).E1.A * montC a1 b1 = (theta_product_structure_to_elliptic_product S).E1.C * montA a1 b1 ∧
+    (theta_product_structure_to_elliptic_product S).E2.A * montC a2 b2 = (theta_product_structure_to_elliptic_product S).E2.C * montA a2 b2 := by
+  simp only [theta_product_structure_to_elliptic_product, hn, montA, montC]
+  refine ⟨by ring, by ring⟩
+
+/-- `theta_point_to_montgomery_point` on a product point (p₁p₂, q₁p₂, p₁q₂, q₁q₂) returns, on each factor, the
+    Montgomery x-coordinate (a q + b p : a q − b p) of the dimension-1 theta point (p : q) -/
+theorem product_point_to_montgomery (S : ThetaStructure F) (P : ThetaPoint F) (a1 b1 a2 b2 p1 q1 p2 q2 : F)
+    (hn : S.null_point = { x := a1 * a2, y := b1 * a2, z := a1 * b2, t := b1 * b2 })
+    (hp : P = { x := p1 * p2, y := q1 * p2, z := p1 * q2, t := q1 * q2 }) :
+    (theta_point_to_montgomery_point P S).P1.x * (a1 * q1 - b1 * p1) = (theta_point_to_montgomery_point P S).P1.z * (a1 * q1 + b1 * p1) ∧
+    (theta_point_to_montgomery_point P S).P2.x * (a2 * q2 - b2 * p2) = (theta_point_to_montgomery_point P S).P2.z * (a2 * q2 + b2 * p2) := by
+  simp only [theta_point_to_montgomery_point, hn, hp]
+  refine ⟨by ring, by ring⟩
 
 end SqiProps.C12F
